@@ -4,18 +4,24 @@ Space (every member is visited, nothing sampled):
   grammars : VALUE -> WORD | list | map | '@' SEQ ';' with one ListProds and one MapProds configuration.
              ListProds options: brackets x delimiter x allow_final_delimiter {default, True, False} x
              optional {default, False, True} x nullable item symbol — every combination the constructor
-             accepts (30); MapProds: brackets x allow_final_delimiter x optional x key symbol terminal /
-             choice non-terminal (16); ProdSequence over the template symbols directly or over VALUE.
-             quick: every list configuration with the default map and vice versa plus four crossings
-             (sequence over the template symbols; over VALUE for the default pair and the crossings);
-             thorough: the full product (sequence over the template symbols; over VALUE on the quick
-             grammar set), and values one node larger on the quick grammar set.
-  data     : every value of <= S nodes (atoms a/b, omitted items, lists, maps with repeated keys,
+             accepts (30) — plus, for every combination with a delimiter, the item symbol being itself a
+             ProdSequence symbol ("rows", 11); MapProds: brackets x allow_final_delimiter x optional x
+             key symbol terminal / choice non-terminal x value symbol = VALUE / the key symbol itself (32);
+             ProdSequence over the template symbols directly or over VALUE; productions declared top-down
+             and bottom-up (leaves first, start symbol last).
+             quick: every list configuration with the default map and vice versa plus six crossings, each
+             in both declaration orders (sequence over the template symbols; over VALUE for the default
+             pair and the crossings);
+             thorough: the full product (top-down, sequence over the template symbols); sequence over VALUE
+             and the bottom-up order on the quick grammar set; values one node larger on the quick set.
+  data     : every value of <= S nodes (atoms a/b, omitted items, lists, rows, maps with repeated keys,
              sequences, absent optional containers), nesting depth <= D, width <= W
   text     : the data rendered with a mixed gap layout (blanks, line breaks, end-of-line and multi-line
-             comments, nothing), values of <= 3 nodes additionally with every uniform layout; with a
-             final delimiter in no / every (thorough: also only in the inner) non-empty delimited
-             container
+             comments, nothing); values of <= 3 nodes (thorough: all) additionally with the 'exotic' layout
+             (form feed / U+2028 as blanks, inside multi-line comments and inside one-line comments whose
+             remaining text would parse as further items) and values of <= 3 nodes with every uniform
+             layout; with a final delimiter in no / every (thorough: also only in the inner) non-empty
+             delimited container
 Oracle: models/templates.py — the generating data is the expected result; the cleaned tree is
 normalised to plain Python data and compared (source order, last value of a repeated key, [] / {} for
 an empty bracket pair, None for an absent optional container).  A final delimiter must be rejected
@@ -30,8 +36,10 @@ TITLE = "List, map and sequence templates return exactly the denoted items"
 TECHNIQUE = "bounded exhaustive data/option enumeration, render -> parse -> normalise round trip"
 DESIGN_REF = "§2 C05"
 LEVEL_TEXT = ("Every nested data value up to a node bound is rendered to text under every accepted "
-              "combination of ListProds/MapProds options, two ProdSequence embeddings, several white-space/"
-              "comment layouts and final-delimiter placements, parsed by the real parser with the default "
+              "combination of ListProds/MapProds options (incl. a sequence symbol as list item and one symbol "
+              "as key and value of a map), two ProdSequence embeddings, two declaration orders of the "
+              "grammar, several white-space/comment layouts (incl. form feed / U+2028) and final-delimiter "
+              "placements, parsed by the real parser with the default "
               "cleanup, and the cleaned tree must denote exactly the generating data.")
 LEVEL_NOTE = ("Small-scope: values with more nodes than the bound, other embeddings of the templates and "
               "AnyTokenExcept are not covered. Trusted: renderer, normaliser and comparer in "
@@ -47,6 +55,12 @@ ASSUMPTIONS = [
     "nullable items with a final delimiter that is not allowed: the same characters read as 'omitted "
     "last item' (the suite asserts that reading) — rejection and that reading are both accepted",
     "a list/map without brackets or with optional=True is embedded between '<' '>' / '(' ')'",
+    "a list whose item symbol is a ProdSequence symbol ('rows'): an empty row is a legal item, so a delimiter "
+    "after the last row reads as final delimiter (nothing added) or as delimiter + empty row; both readings "
+    "are accepted where a final delimiter is allowed, rejection or the second reading where it is not; a "
+    "bracket-less list of rows without any token reads as [] or as one empty row (the outcome labels in "
+    "the evidence say which reading the implementation took)",
+    "a line of the text ends at a line-feed only; form feed, U+2028 etc. are blanks / comment characters",
     "for a repeated key both 'position of first occurrence' and 'position of last occurrence' are "
     "accepted as source order",
 ]
@@ -58,7 +72,10 @@ REQUIRED_FEATURES = [
     "lopt:brackets", "lopt:no-brackets", "lopt:delimiter", "lopt:no-delimiter", "lopt:afd-default",
     "lopt:afd-true", "lopt:afd-false", "lopt:optional", "lopt:nullable-item",
     "mopt:brackets", "mopt:no-brackets", "mopt:afd-true", "mopt:afd-false", "mopt:optional",
-    "mopt:key-nonterminal", "seq:direct-symbols", "seq:via-value",
+    "mopt:key-nonterminal", "mopt:key-symbol-is-value-symbol", "lopt:item-symbol-is-a-sequence",
+    "row", "list-in-row", "map-in-row", "seq-in-row", "fd:after-last-row", "order:top-down", "order:bottom-up",
+    "layout:exotic", "gap:eol-comment-with-exotic-line-break", "gap:exotic-line-break-as-blank",
+    "gap:span-comment-with-exotic-line-break", "seq:direct-symbols", "seq:via-value",
     "fd:allowed", "fd:forbidden", "fd:nullable-not-allowed",
     "layout:tight", "layout:newline", "layout:comment", "layout:mixed",
 ]
@@ -89,11 +106,12 @@ SPAN = {"COMMENT_ML": r"(?P<BODY>.*?)\*/"}
 _TIERS = {
     # layouts: on every value / additionally on values of <= layout_size nodes
     "quick": {"size": 4, "depth": 3, "width": 3, "big_size": 0,
-              "layouts": ("mixed",), "more_layouts": ("tight", "newline", "comment"), "layout_size": 3,
-              "fd": (("all", "tight"),), "big_fd": ()},
+              "layouts": ("mixed",), "more_layouts": ("exotic", "tight", "newline", "comment"), "layout_size": 3,
+              "fd": (("all", "tight"),), "big_fd": (), "bottom_up_layouts": ("mixed",)},
     "thorough": {"size": 4, "depth": 4, "width": 4, "big_size": 5,
-                 "layouts": ("mixed",), "more_layouts": ("tight", "space", "newline", "comment"), "layout_size": 3,
-                 "fd": (("all", "tight"), ("inner", "mixed")), "big_fd": (("all", "tight"),)},
+                 "layouts": ("mixed", "exotic"), "more_layouts": ("tight", "space", "newline", "comment"),
+                 "layout_size": 3, "fd": (("all", "tight"), ("inner", "mixed")), "big_fd": (("all", "tight"),),
+                 "bottom_up_layouts": ("mixed", "tight")},
 }
 SEQ_VARIANTS = ("direct", "value")
 
@@ -114,7 +132,9 @@ def grammar_set(tier):
     core += [([False, True, None, None, True], [False, True, None, False]),      # both without brackets
              ([True, True, None, True, True], [True, True, True, True]),         # both optional
              ([False, False, None, None, False], [False, False, None, True]),
-             ([True, False, False, True, False], [True, False, True, False])]
+             ([True, False, False, True, False], [True, False, True, False]),
+             ([True, True, None, None, True, True], [True, True, None, False, True]),     # rows x word->word map
+             ([False, True, None, None, True, True], [False, True, None, True, True])]
     if tier == "quick":
         return core, []
     full = [(l.key(), m.key()) for l in ls for m in ms]
@@ -125,7 +145,8 @@ def bounds(tier):
     t = _TIERS[tier]
     small, big = grammar_set(tier)
     return {"list_option_combinations": len(T.list_options()), "map_option_combinations": len(T.map_options()),
-            "sequence_embeddings": list(SEQ_VARIANTS), "grammars": len([x for x in shards(tier) if x[0] == "small"]),
+            "sequence_embeddings": list(SEQ_VARIANTS), "declaration_orders": list(ORDERS),
+            "grammars": len([x for x in shards(tier) if x[0] == "small"]),
             "max_nodes": t["size"], "max_depth": t["depth"], "max_width": t["width"],
             "max_nodes_on_core_grammars": t["big_size"] or None, "core_grammars": len(big) or None,
             "layouts_all_values": list(t["layouts"]), "layouts_values_up_to_nodes": [t["layout_size"], list(t["more_layouts"])],
@@ -136,46 +157,67 @@ def bounds(tier):
 BIG_SLICES = 2
 
 
+N_CROSSINGS = 6
+ORDERS = ("top-down", "bottom-up")
+
+
 def shards(tier):
+    """("small"|"big", list options, map options, sequence embedding, declaration order[, slice])."""
     small, big = grammar_set(tier)
     if tier == "quick":
         # the sequence embedding is independent of the template options: 'direct' with every core
-        # grammar, 'value' with the default pair and the four crossings
+        # grammar, 'value' with the default pair and the crossings; every core grammar is also declared
+        # bottom-up (leaves first, start symbol last)
         dflt = (T.L_DEFAULT.key(), T.M_DEFAULT.key())
-        return ([("small", lk, mk, "direct") for lk, mk in small] +
-                [("small", lk, mk, "value") for lk, mk in [dflt] + small[-4:]])
-    # thorough: the full product with the sequence over the template symbols; the sequence over VALUE
-    # with the core (= quick) grammar set; values of big_size nodes on the core set
-    sh = [("small", lk, mk, "direct") for lk, mk in small]
-    sh += [("small", lk, mk, "value") for lk, mk in big]
-    sh += [("big", lk, mk, "direct", i) for lk, mk in big for i in range(BIG_SLICES)]
+        return ([("small", lk, mk, "direct", "top-down") for lk, mk in small] +
+                [("small", lk, mk, "direct", "bottom-up") for lk, mk in small] +
+                [("small", lk, mk, "value", "top-down") for lk, mk in [dflt] + small[-N_CROSSINGS:]])
+    # thorough: the full product with the sequence over the template symbols; the sequence over VALUE and
+    # the bottom-up declaration order with the core (= quick) grammar set; values of big_size nodes on
+    # the core set
+    sh = [("small", lk, mk, "direct", "top-down") for lk, mk in small]
+    sh += [("small", lk, mk, "value", "top-down") for lk, mk in big]
+    sh += [("small", lk, mk, sv, "bottom-up") for lk, mk in big for sv in SEQ_VARIANTS]
+    sh += [("big", lk, mk, "direct", "top-down", i) for lk, mk in big for i in range(BIG_SLICES)]
     return sh
 
 
 # ------------------------------------------------------------------------------- real grammar
-def build_parser(lopt, mopt, seqvar):
+def build_parser(lopt, mopt, seqvar, order="top-down"):
     ls = "LWRAP" if lopt.wrapped else "LIST"
     ms = "MWRAP" if mopt.wrapped else "MAP"
     key = "KEY" if mopt.key_nt else "WORD"
+    val = key if mopt.val_same else "VALUE"        # val_same: MapProds('{', 'WORD', ':', 'WORD', ',', '}')
+    item = "ROW" if lopt.item_seq else "ITEM"      # item_seq: the item symbol is itself a ProdSequence symbol
+
+    def seq():
+        return impl.ProdSequence("VALUE") if seqvar == "value" else impl.ProdSequence("WORD", ls, ms, "SWRAP")
+
     prods = {
         "E": [("VALUE",)],
         "VALUE": [("WORD",), (ls,), (ms,), ("SWRAP",)],
-        "LIST": impl.ListProds("[" if lopt.brackets else None, "ITEM", "," if lopt.delim else None,
-                               "]" if lopt.brackets else None,
-                               allow_final_delimiter=lopt.afd, optional=lopt.optional),
-        "ITEM": [("VALUE",)] + ([None] if lopt.nullable else []),
-        "MAP": impl.MapProds("{" if mopt.brackets else None, key, ":", "VALUE", ",",
-                             "}" if mopt.brackets else None,
-                             optional=mopt.optional, allow_final_delimiter=mopt.afd),
-        "SWRAP": [("@", "SEQ", ";")],
-        "SEQ": impl.ProdSequence("VALUE") if seqvar == "value" else impl.ProdSequence("WORD", ls, ms, "SWRAP"),
     }
     if lopt.wrapped:
         prods["LWRAP"] = [("<", "LIST", ">")]
+    prods["LIST"] = impl.ListProds("[" if lopt.brackets else None, item, "," if lopt.delim else None,
+                                   "]" if lopt.brackets else None,
+                                   allow_final_delimiter=lopt.afd, optional=lopt.optional)
+    if lopt.item_seq:
+        prods["ROW"] = seq()
+    else:
+        prods["ITEM"] = [("VALUE",)] + ([None] if lopt.nullable else [])
     if mopt.wrapped:
         prods["MWRAP"] = [("(", "MAP", ")")]
+    prods["MAP"] = impl.MapProds("{" if mopt.brackets else None, key, ":", val, ",",
+                                 "}" if mopt.brackets else None,
+                                 optional=mopt.optional, allow_final_delimiter=mopt.afd)
     if mopt.key_nt:
         prods["KEY"] = [("WORD",), ("NUMBER",)]
+    prods["SWRAP"] = [("@", "SEQ", ";")]
+    prods["SEQ"] = seq()
+    if order == "bottom-up":
+        # the same grammar declared leaves first, start symbol last
+        prods = dict(reversed(list(prods.items())))
     return impl.LLParser(TOKENIZER, synonyms=dict(SYNONYMS), span_matchers=dict(SPAN), productions=prods)
 
 
@@ -183,18 +225,19 @@ _PARSERS = {}
 _SPACES = {}
 
 
-def _parser(lk, mk, sv):
-    k = (tuple(lk), tuple(mk), sv)
+def _parser(lk, mk, sv, order):
+    k = (tuple(lk), tuple(mk), sv, order)
     p = _PARSERS.get(k)
     if p is None:
         if len(_PARSERS) > 64:
             _PARSERS.clear()
-        p = _PARSERS[k] = build_parser(_lopt(lk), _mopt(mk), sv)
+        p = _PARSERS[k] = build_parser(_lopt(lk), _mopt(mk), sv, order)
     return p
 
 
 def _space(lopt, mopt, depth, width):
-    k = (lopt.nullable, bool(lopt.afd_effective and lopt.delim), bool(lopt.optional), bool(mopt.optional), depth, width)
+    k = (lopt.nullable, lopt.item_seq, bool(lopt.afd_effective and lopt.delim), bool(lopt.optional),
+         bool(mopt.optional), mopt.val_same, depth, width)
     s = _SPACES.get(k)
     if s is None:
         if len(_SPACES) >= 2:
@@ -203,8 +246,8 @@ def _space(lopt, mopt, depth, width):
     return s
 
 
-def _opt_features(lopt, mopt, sv):
-    f = ["lopt:brackets" if lopt.brackets else "lopt:no-brackets",
+def _opt_features(lopt, mopt, sv, order):
+    f = ["order:" + order,"lopt:brackets" if lopt.brackets else "lopt:no-brackets",
          "lopt:delimiter" if lopt.delim else "lopt:no-delimiter",
          "lopt:afd-" + {None: "default", True: "true", False: "false"}[lopt.afd],
          "mopt:brackets" if mopt.brackets else "mopt:no-brackets",
@@ -220,6 +263,10 @@ def _opt_features(lopt, mopt, sv):
         f.append("mopt:optional")
     if mopt.key_nt:
         f.append("mopt:key-nonterminal")
+    if mopt.val_same:
+        f.append("mopt:key-symbol-is-value-symbol")
+    if lopt.item_seq:
+        f.append("lopt:item-symbol-is-a-sequence")
     return f
 
 
@@ -231,7 +278,9 @@ def judge(parser, lopt, mopt, data, layout_name, fd_mode, acc):
         return None                      # same text as mode 'none'
     text = T.layout(r.tokens, layout_name)
     feats = ["layout:" + layout_name]
+    feats.extend(T.layout_features(len(r.tokens), layout_name))
     exp = T.expected(data)
+    fd_at = T.FD_MODES[fd_mode]
     acc.trans()
     err = None
     root = None
@@ -249,46 +298,66 @@ def judge(parser, lopt, mopt, data, layout_name, fd_mode, acc):
                                            "a final delimiter the options do not allow was accepted",
                                            text, "ParsingError"))
         return ("rejected-as-required", feats, None)
-    alternatives = [exp]
-    if r.fd_ambiguous:
+    # the readings of the text the statement leaves open (ASSUMPTIONS): [(label, first_wins -> value)]
+    plain = ("", {})
+    omitted = (":fd-read-as-omitted-item", {"tail": (lopt, fd_at)})
+    may_reject = False
+    if r.fd_rows:
+        # a delimiter after the last row: final delimiter (adds nothing) or delimiter + empty row
+        feats.append("fd:after-last-row")
+        readings = [plain, omitted] if lopt.afd_effective else [omitted]
+        may_reject = not lopt.afd_effective
+    elif r.fd_ambiguous:
         feats.append("fd:nullable-not-allowed")
-        if err is not None:
-            return ("rejected(nullable+fd)", feats, None)
-        alternatives = [T.expected_with_omitted_tail(data, lopt, T.FD_MODES[fd_mode])]
-    elif r.fd_used:
-        feats.append("fd:allowed")
+        readings = [omitted]
+        may_reject = True
+    else:
+        readings = [plain]
+        if r.fd_used:
+            feats.append("fd:allowed")
+    if r.empty_rowlist:
+        # a bracket-less list of rows without any token: no row, or one empty row
+        feats.append("list:bracket-less-row-list-without-tokens")
+        readings = readings + [(lab + ":empty-text-read-as-one-empty-row", dict(kw, empty_rows=lopt))
+                               for lab, kw in readings]
     if r.fd_mandatory:
         feats.append("list:omitted-last-item")
     if err is not None:
+        if may_reject:
+            return ("rejected(delimiter-after-last-item-not-allowed)", feats, None)
         return ("rejected", feats, ("C05:valid-text-rejected", "text denoting the data was rejected with "
                                     "ParsingError", text, exp))
     try:
-        got = T.normalise(root)
+        got = T.normalise(root, rows=lopt.item_seq)
     except T.Shape as s:
         sig = s.kind
         if s.kind == "container-not-converted":
-            sig = "container-inside-sequence-not-converted" if s.in_seq else "container-not-converted"
+            sig = {"sequence": "container-inside-sequence-not-converted",
+                   "row": "container-inside-row-of-a-list-not-converted"}.get(s.in_seq, "container-not-converted")
         return (sig, feats, ("C05:" + sig, "the cleaned tree still contains " + s.kind.replace("-", " ")
-                             + (" inside a sequence element" if s.in_seq else ""), s.detail, exp))
-    want = alternatives[0]
-    d = T.diff(want, got)
-    if d is not None:
-        if r.fd_used and not r.fd_ambiguous and T.diff(T.expected(data), got) is not None and \
-                T.diff(T.expected_with_omitted_tail(data, T.LOpt(True, True, False, None, True),
-                                                    T.FD_MODES[fd_mode]), got) is None:
+                             + (f" inside a {s.in_seq} element" if s.in_seq else ""), s.detail, exp))
+    label = None
+    for lab, kw in readings:
+        if T.diff(T.expected(data, **kw), got) is None:
+            label = lab
+            break
+    if label is None:
+        want = T.expected(data, **readings[0][1])
+        d = T.diff(want, got)
+        if r.fd_used and not r.fd_ambiguous and not r.fd_rows and \
+                T.diff(T.expected(data, tail=(T.LOpt(True, True, False, None, True), fd_at)), got) is None:
             d = "final-delimiter-adds-element"
         else:
-            fw = (T.expected_with_omitted_tail(data, lopt, T.FD_MODES[fd_mode], first_wins=True)
-                  if r.fd_ambiguous else T.expected(data, first_wins=True))
-            if fw != want and T.diff(fw, got) is None:
-                d = "map-repeated-key-keeps-first-value"
+            for lab, kw in readings:
+                fw = T.expected(data, first_wins=True, **kw)
+                if fw != T.expected(data, **kw) and T.diff(fw, got) is None:
+                    d = "map-repeated-key-keeps-first-value"
         return (d, feats, ("C05:" + d, "cleaned value differs from the data the text denotes", repr(got), repr(want)))
-    if not r.fd_ambiguous:
-        ko = T.key_order_violation(data, got)
-        if ko is not None:
-            return ("map-key-order", feats, ("C05:map-key-order", "map keys are not in source order", ko[0], ko[1]))
+    ko = T.key_order_violation(data, got)
+    if ko is not None:
+        return ("map-key-order", feats, ("C05:map-key-order", "map keys are not in source order", ko[0], ko[1]))
     kind = T._kind(got)
-    return ("ok:" + kind + (":fd" if r.fd_used else ""), feats, None)
+    return ("ok:" + kind + (":fd" if r.fd_used else "") + label, feats, None)
 
 
 def _nontrivial(data, dfeats, fd_used):
@@ -302,12 +371,15 @@ def _size(v):
     return 1 + sum(_size(x[1]) if v[0] == "M" else _size(x) for x in v[1:])
 
 
-def run_data(parser, lk, mk, sv, lopt, mopt, ofeats, data, tier, acc, big=False):
+def run_data(parser, lk, mk, sv, order, lopt, mopt, ofeats, data, tier, acc, big=False):
     t = _TIERS[tier]
     dfeats = set()
     T.features_of(data, dfeats)
     plans = [("none", lay) for lay in t["layouts"]]
-    if big:
+    if order == "bottom-up":
+        # same grammar, other declaration order: the texts must parse to the same data
+        plans = [("none", lay) for lay in t["bottom_up_layouts"]]
+    elif big:
         plans += list(t["big_fd"])
     else:
         if _size(data) <= t["layout_size"]:
@@ -322,46 +394,46 @@ def run_data(parser, lk, mk, sv, lopt, mopt, ofeats, data, tier, acc, big=False)
                  features=list(dfeats) + ofeats + feats, outcome=outcome)
         if viol is not None:
             sig, msg, obs, exp = viol
-            acc.violation(sig, {"lopt": lk, "mopt": mk, "seq": sv, "data": data, "layout": lay, "fd": fd_mode},
-                          msg, obs, exp)
+            acc.violation(sig, {"lopt": lk, "mopt": mk, "seq": sv, "order": order, "data": data, "layout": lay,
+                                "fd": fd_mode}, msg, obs, exp)
 
 
 def run_shard(shard, tier, seed, acc):
     t = _TIERS[tier]
-    kind, lk, mk, sv = shard[:4]
+    kind, lk, mk, sv, order = shard[:5]
     lopt, mopt = _lopt(lk), _mopt(mk)
     try:
-        parser = _parser(lk, mk, sv)
+        parser = _parser(lk, mk, sv, order)
     except Exception as e:  # noqa
         acc.case(features=["grammar-construction-failed"], outcome="construction:" + type(e).__name__)
         acc.violation("C05:valid-options-rejected:" + type(e).__name__,
-                      {"lopt": lk, "mopt": mk, "seq": sv, "data": "a", "layout": "tight", "fd": "none"},
+                      {"lopt": lk, "mopt": mk, "seq": sv, "order": order, "data": "a", "layout": "tight", "fd": "none"},
                       f"LLParser construction failed for an accepted option combination: {str(e)[-300:]}",
                       type(e).__name__, "a parser")
         return
-    ofeats = _opt_features(lopt, mopt, sv)
+    ofeats = _opt_features(lopt, mopt, sv, order)
     space = _space(lopt, mopt, t["depth"], t["width"])
     if kind == "small":
         it = space.upto(t["size"])
     else:
         vals = space.values(t["big_size"], t["depth"])
-        it = (v for i, v in enumerate(vals) if i % BIG_SLICES == shard[4])
+        it = (v for i, v in enumerate(vals) if i % BIG_SLICES == shard[5])
     n = 0
     for data in it:
-        run_data(parser, lk, mk, sv, lopt, mopt, ofeats, data, tier, acc, big=(kind == "big"))
+        run_data(parser, lk, mk, sv, order, lopt, mopt, ofeats, data, tier, acc, big=(kind == "big"))
         n += 1
         if n % 128 == 0:
             if acc.expired():
                 return
             if n % 1024 == 0:
-                acc.sample({"lopt": lk, "mopt": mk, "seq": sv, "data": data,
-                            "text": T.layout(T.render(data, lopt, mopt).tokens, "mixed")})
+                acc.sample({"lopt": lk, "mopt": mk, "seq": sv, "order": order, "data": data,
+                            "text": T.layout(T.render(data, lopt, mopt).tokens, "exotic" if n % 2048 else "mixed")})
 
 
 def replay(case, acc):
     lk, mk, sv = case["lopt"], case["mopt"], case["seq"]
     lopt, mopt = _lopt(lk), _mopt(mk)
-    parser = build_parser(lopt, mopt, sv)
+    parser = build_parser(lopt, mopt, sv, case.get("order", "top-down"))
     res = judge(parser, lopt, mopt, case["data"], case["layout"], case["fd"], acc)
     acc.case()
     if res is not None and res[2] is not None:
